@@ -46,6 +46,10 @@ func (r *Decoder) produceLANGTAG(r0 cursorio.DecodedRune) (*tokenLANGTAG, error)
 
 			goto PRIMARY_DELIMITER_DONE
 		default:
+			if len(uncommitted) == 1 {
+				return nil, grammar.R_LANGTAG.Err(r.newOffsetError(cursorioutil.UnexpectedRuneError{Rune: r0.Rune}, uncommitted.AsDecodedRunes(), r0.AsDecodedRunes()))
+			}
+
 			r.buf.BacktrackRunes(r0)
 
 			goto DONE
